@@ -42,6 +42,7 @@ MANIFEST = {
             'is_domainlevel_complement is decided on the real code against an independent reference.'
             ' STATEMENT LEVEL, FROM THE SOURCE: make_loop_index is transcribed statement by statement from the working tree (Gen/PyFuncs.lean) and proved equal to the model, in both modes, on every table make_pair_table returns (py_make_loop_index_eq, py_loop_index_of_py_pair_table); py_loop_index_raises_iff_disconnected: the source-derived function raises SecondaryStructureError exactly for disconnected complexes, py_loop_index_components_total: components mode never raises; on arbitrary ill-formed tables the transcription is run against the code (same faults).',
     'note': 'is_domainlevel_complement: Model/Dlc.lean follows the loop (row-major, early return, look-up order) and is tied to the property by the correspondence stream ComplexS.is_domainlevel_complement; the side effects of ~ (creation of complement objects) are outside that model (C04 / C05 cover them); trusted base as in DESIGN.md section 3.',
+    'source_derived': 'The object views exterior_domains / enclosed_domains / __loop_index are transcribed from the working tree (Gen/PyComplexS.lean): PyObj.Ext.view_exterior / view_enclosed prove that on a coherent object they answer the cache-free specification edSpec - raising exactly when it raises, leaving the object coherent also after a failure half way.',
     'technique': 'Lean 4 invariant proof over the loop-index scan (innermost enclosing pair = stack top) + connectivity by descent; correspondence check',
 }
 
